@@ -100,6 +100,13 @@ def run(ck, P):
             ok = ok and zero and visit_arg.endswith("->userptr")
             det = "%s: order %s, later steps guarded by ret == 0: %s, visits %s" % (name, order, zero, visit_arg)
         ck.ob("C11.3-TRAVERSE", f.site("order"), ok, det)
+        # the walk itself never gives up: it stops only on what the callback returned (a depth or count limit of its own cuts the
+        # traversal of a degenerate — unbalanced — tree short)
+        own = [e for e in f.events() if e.kind == "ret" and e.e is not None and cval(e.e) is not None and cval(e.e) != 0]
+        ck.ob("C11.3-TRAVERSE", f.site("stops only on the callback's result"), not own,
+              "%s returns 0 or what the callback / the recursion returned" % name if not own else
+              "%s returns %d of its own accord at line %d: a traversal can end before every element was visited although no callback asked for it "
+              "(the tree is not balanced: any depth is legitimate)" % (name, cval(own[0].e), own[0].line))
     tv = P.fn("m_bst_traverse", B)
     ck.analysed(tv)
     E = P.enums
